@@ -27,7 +27,7 @@ def defs(stakes, votes, certs, blocks, evslots):
             f"UE == {tla_set(map(str, evslots))}\n")
 
 
-def cfg(n, own, max_slot, max_steps, invs, dump):
+def cfg(n, own, max_slot, max_steps, invs, dump, urgent="TRUE"):
     s = f"""CONSTANTS
   N = {n}
   StakeVec <- SV
@@ -40,6 +40,7 @@ def cfg(n, own, max_slot, max_steps, invs, dump):
   BlockU <- UB
   EvSlots <- UE
   MaxSteps = {max_steps}
+  Urgent = {urgent}
 INIT Init
 NEXT Next
 VIEW View
